@@ -65,20 +65,24 @@ type Binding struct {
 }
 
 type MSLOpts struct {
-	Version                Version            `json:"version"`
-	BoundsIndex            uint8              `json:"b_index"`
-	BoundsBuffer           uint8              `json:"b_buffer"`
-	BoundsImage            uint8              `json:"b_image"`
-	BoundsBindingArray     uint8              `json:"b_bindarr"`
-	ZeroInitWorkgroup      bool               `json:"zeroinit,omitempty"`
-	ForceLoopBounding      bool               `json:"loopbound,omitempty"`
-	FakeMissingBindings    bool               `json:"fake,omitempty"`
-	AllowAndForcePointSize bool               `json:"pointsize,omitempty"`
-	Consts                 []Const            `json:"consts,omitempty"` // JSON-safe form of PipelineConstants (NaN allowed)
-	HasConsts              bool               `json:"has_consts,omitempty"`
-	EntryPoint             string             `json:"ep,omitempty"` // with EPStage: CompileWithPipeline selector
-	EPStage                int                `json:"ep_stage,omitempty"`
-	UsePipeline            bool               `json:"pipeline,omitempty"`
+	Version                Version `json:"version"`
+	BoundsIndex            uint8   `json:"b_index"`
+	BoundsBuffer           uint8   `json:"b_buffer"`
+	BoundsImage            uint8   `json:"b_image"`
+	BoundsBindingArray     uint8   `json:"b_bindarr"`
+	ZeroInitWorkgroup      bool    `json:"zeroinit,omitempty"`
+	ForceLoopBounding      bool    `json:"loopbound,omitempty"`
+	FakeMissingBindings    bool    `json:"fake,omitempty"`
+	AllowAndForcePointSize bool    `json:"pointsize,omitempty"`
+	Consts                 []Const `json:"consts,omitempty"` // JSON-safe form of PipelineConstants (NaN allowed)
+	HasConsts              bool    `json:"has_consts,omitempty"`
+	EntryPoint             string  `json:"ep,omitempty"` // with EPStage: CompileWithPipeline selector
+	EPStage                int     `json:"ep_stage,omitempty"`
+	UsePipeline            bool    `json:"pipeline,omitempty"`
+	// PerEP: pass a PerEntryPointMap naming every (group,binding) of the module
+	// for every entry point (EPNames), instead of relying on fake bindings.
+	PerEP   []BindingTarget `json:"per_ep,omitempty"`
+	EPNames []string        `json:"ep_names,omitempty"`
 }
 
 // Const is one pipeline-constant assignment. Value is carried as a string so
@@ -89,21 +93,21 @@ type Const struct {
 }
 
 type GLSLOpts struct {
-	Version            Version `json:"version"`
-	EntryPoint         string  `json:"ep,omitempty"`
-	SamplerBase        uint32  `json:"sbase,omitempty"`
-	TextureBase        uint32  `json:"tbase,omitempty"`
-	UniformBase        uint32  `json:"ubase,omitempty"`
-	StorageBase        uint32  `json:"stbase,omitempty"`
-	WriterFlags        uint32  `json:"flags,omitempty"`
-	ForceHighPrecision bool    `json:"highp,omitempty"`
-	BoundsIndex        uint8   `json:"b_index,omitempty"`
-	BoundsBuffer       uint8   `json:"b_buffer,omitempty"`
-	BoundsImageLoad    uint8   `json:"b_imgload,omitempty"`
-	BoundsImageStore   uint8   `json:"b_imgstore,omitempty"`
+	Version            Version         `json:"version"`
+	EntryPoint         string          `json:"ep,omitempty"`
+	SamplerBase        uint32          `json:"sbase,omitempty"`
+	TextureBase        uint32          `json:"tbase,omitempty"`
+	UniformBase        uint32          `json:"ubase,omitempty"`
+	StorageBase        uint32          `json:"stbase,omitempty"`
+	WriterFlags        uint32          `json:"flags,omitempty"`
+	ForceHighPrecision bool            `json:"highp,omitempty"`
+	BoundsIndex        uint8           `json:"b_index,omitempty"`
+	BoundsBuffer       uint8           `json:"b_buffer,omitempty"`
+	BoundsImageLoad    uint8           `json:"b_imgload,omitempty"`
+	BoundsImageStore   uint8           `json:"b_imgstore,omitempty"`
 	BindingMap         []BindingTarget `json:"bindmap,omitempty"`
-	Consts             []Const `json:"consts,omitempty"`
-	HasConsts          bool    `json:"has_consts,omitempty"`
+	Consts             []Const         `json:"consts,omitempty"`
+	HasConsts          bool            `json:"has_consts,omitempty"`
 }
 
 type BindingTarget struct {
@@ -124,13 +128,17 @@ type HLSLOpts struct {
 	// ReuseOptions: pass the *same* *hlsl.Options value as the previous hlsl
 	// operation of this task (caller-owned options object reused across calls).
 	ReuseOptions bool `json:"reuse_opts,omitempty"`
+	// SamplerBufferMap / DynOffsets: fill the per-group option maps
+	SamplerBufferMap bool `json:"sampler_buffer_map,omitempty"`
+	DynOffsets       bool `json:"dyn_offsets,omitempty"`
 }
 
 type DXILOpts struct {
-	SMMinor       uint32          `json:"sm_minor"`
-	UseBypassHash bool            `json:"bypass,omitempty"`
-	BindingMap    []BindingTarget `json:"bindmap,omitempty"`
-	SamplerHeap   bool            `json:"samplerheap,omitempty"`
+	SMMinor          uint32          `json:"sm_minor"`
+	UseBypassHash    bool            `json:"bypass,omitempty"`
+	BindingMap       []BindingTarget `json:"bindmap,omitempty"`
+	SamplerHeap      bool            `json:"samplerheap,omitempty"`
+	SamplerBufferMap bool            `json:"sampler_buffer_map,omitempty"`
 }
 
 type OneshotOpts struct {
@@ -186,16 +194,16 @@ type Sched struct {
 
 // Scenario is one simulated world.
 type Scenario struct {
-	Seed     uint64          `json:"seed"`
-	Label    string          `json:"label,omitempty"`
-	Sources  []Source        `json:"sources"`
-	Backends []SpirvOpts     `json:"backends,omitempty"`
-	Tasks    [][]Op          `json:"tasks"`
-	Perm     simrt.PermSpec  `json:"perm"`
-	Sched    Sched           `json:"sched"`
-	Monitor  int             `json:"monitor"` // check invariants every Nth slice (1 = every slice, 0 = only at operation boundaries)
-	Dump     bool            `json:"dump,omitempty"`
-	PoolSeed uint64          `json:"pool_seed,omitempty"`
+	Seed     uint64         `json:"seed"`
+	Label    string         `json:"label,omitempty"`
+	Sources  []Source       `json:"sources"`
+	Backends []SpirvOpts    `json:"backends,omitempty"`
+	Tasks    [][]Op         `json:"tasks"`
+	Perm     simrt.PermSpec `json:"perm"`
+	Sched    Sched          `json:"sched"`
+	Monitor  int            `json:"monitor"` // check invariants every Nth slice (1 = every slice, 0 = only at operation boundaries)
+	Dump     bool           `json:"dump,omitempty"`
+	PoolSeed uint64         `json:"pool_seed,omitempty"`
 }
 
 // OpResult is what one operation returned.
@@ -219,17 +227,17 @@ type OpResult struct {
 
 // Violation is an invariant broken inside the worker.
 type Violation struct {
-	Class   string   `json:"class"`  // I-MUT, I-OPT, I-GLOBAL, O-ALIAS, I-LIVE
-	Task    int      `json:"t"`      // culprit (who ran the slice)
-	Op      int      `json:"o"`
-	Kind    string   `json:"kind"`   // culprit operation kind
-	Object  string   `json:"object"` // e.g. module#1
-	ObjID   int      `json:"obj_id"` // module object id (I-MUT)
-	Paths   []string `json:"paths,omitempty"`
-	Detail  string   `json:"detail,omitempty"`
-	AtStep  uint64   `json:"at_step"`
-	MidOp   bool     `json:"mid_op,omitempty"`   // seen while the culprit operation was still running
-	Healed  bool     `json:"healed,omitempty"`   // the object was back to its baseline at a later check
+	Class  string   `json:"class"` // I-MUT, I-OPT, I-GLOBAL, O-ALIAS, I-LIVE
+	Task   int      `json:"t"`     // culprit (who ran the slice)
+	Op     int      `json:"o"`
+	Kind   string   `json:"kind"`   // culprit operation kind
+	Object string   `json:"object"` // e.g. module#1
+	ObjID  int      `json:"obj_id"` // module object id (I-MUT)
+	Paths  []string `json:"paths,omitempty"`
+	Detail string   `json:"detail,omitempty"`
+	AtStep uint64   `json:"at_step"`
+	MidOp  bool     `json:"mid_op,omitempty"` // seen while the culprit operation was still running
+	Healed bool     `json:"healed,omitempty"` // the object was back to its baseline at a later check
 	// Suspects: every (task, op) that ran since the previous clean check.
 	// Exactly one => Task/Op/Kind are the culprit; more => Kind is "ambiguous"
 	// and the driver re-runs the recorded schedule with a check after every slice.
@@ -238,19 +246,19 @@ type Violation struct {
 
 // Stats are measured, per run.
 type Stats struct {
-	Steps        uint64   `json:"steps"`
-	Slices       int      `json:"slices"`
-	Switches     uint64   `json:"switches"`      // pre-emptions inside an operation
-	Overlap      uint64   `json:"overlap"`       // pre-emptions while another op was in flight on the same module
-	Stalls       int      `json:"stalls"`
-	MonitorRuns  int      `json:"monitor_runs"`
-	MapVisits    []uint32 `json:"map_visits"`    // per site, visits with >=2 entries
-	MapPermuted  []uint32 `json:"map_permuted"`  // per site, visits with a non-identity order
-	Pairs        []string `json:"pairs,omitempty"` // "running|inflight" backend kind pairs seen on one module
-	PoolGets     uint64   `json:"pool_gets,omitempty"`
-	PoolDrops    uint64   `json:"pool_drops,omitempty"`
-	SwitchHash   string   `json:"switch_hash"`   // hash of the (task,op,site) switch sequence
-	YieldCover   int      `json:"yield_cover,omitempty"`
+	Steps       uint64   `json:"steps"`
+	Slices      int      `json:"slices"`
+	Switches    uint64   `json:"switches"` // pre-emptions inside an operation
+	Overlap     uint64   `json:"overlap"`  // pre-emptions while another op was in flight on the same module
+	Stalls      int      `json:"stalls"`
+	MonitorRuns int      `json:"monitor_runs"`
+	MapVisits   []uint32 `json:"map_visits"`      // per site, visits with >=2 entries
+	MapPermuted []uint32 `json:"map_permuted"`    // per site, visits with a non-identity order
+	Pairs       []string `json:"pairs,omitempty"` // "running|inflight" backend kind pairs seen on one module
+	PoolGets    uint64   `json:"pool_gets,omitempty"`
+	PoolDrops   uint64   `json:"pool_drops,omitempty"`
+	SwitchHash  string   `json:"switch_hash"` // hash of the (task,op,site) switch sequence
+	YieldCover  int      `json:"yield_cover,omitempty"`
 }
 
 type Result struct {
